@@ -158,8 +158,14 @@ def _csub(ex, c):
 
 def int_conv(ex, c):
     v = c.args[0]
-    m = re.search(r"as (?:Into|From)<(\w+)>", c.path)
-    ty = m.group(1) if m else (c.dest_ty or "").strip()
+    mi = re.search(r"as (?:\w+::)*Into<([\w:]+)>", c.path)
+    mf = re.match(r"^<([\w:]+) as (?:\w+::)*From<", c.path)
+    if mi:
+        ty = mi.group(1).split("::")[-1]
+    elif mf:
+        ty = mf.group(1).split("::")[-1]
+    else:
+        ty = (c.dest_ty or "").strip().split("::")[-1]
     if ty in INT_TYPES and isinstance(v, BV):
         return ex.cast(v, ty, "IntToInt")
     if ty in INT_TYPES and isinstance(v, Bool):
@@ -405,6 +411,8 @@ def make_pool_set(terms):
 @summary("HashSet::contains")
 def _hs_contains(ex, c):
     hs = deref(ex, c.args[0])
+    if isinstance(hs, KSet):
+        return Bool(key_of(ex, c.args[1]) in hs.keys)
     x = deref(ex, c.args[1])
     return Bool(z3.Or([cell.v.fields[0].t == x.fields[0].t for cell in hs.items]) if hs.items else z3.BoolVal(False))
 
@@ -456,6 +464,8 @@ def deref1(ex, v):
 @summary("<* as Iterator>::collect")
 def _it_collect(ex, c):
     ty = c.generics[0] if c.generics else ""
+    if base_type_name(ty).startswith("HashSet"):
+        return KSet(key_of(ex, x) for x in c.args[0].items)
     if not base_type_name(ty).startswith("Vec"):
         raise Unsupported(f"collect::<{ty}>")
     return Seq(list(c.args[0].items))
@@ -783,6 +793,9 @@ def _hm_get(ex, c):
     """map of bounded concrete size: entries = list of (key, Cell(value)); lookup by the crate's own PartialEq"""
     m = deref(ex, c.args[0])
     k = c.args[1]
+    if isinstance(m, KMap):
+        cell = m.d.get(key_of(ex, k))
+        return some(Ref(cell)) if cell is not None else NONE()
     for (sk, cell) in m.entries:
         r = ex.do_call(f"<{m.key_ty} as PartialEq>::eq", [Ref(Cell(sk)), k], None, 0)
         if ex.branch(r.t):
@@ -1335,3 +1348,14 @@ def _from_be(ex, c):
     for b in seq.items[1:]:
         t = z3.Concat(t, b.t)
     return BV(t)
+
+
+class KSet(Opaque):
+    def __init__(self, keys):
+        Opaque.__init__(self, "KSet")
+        self.keys = set(keys)
+
+
+@summary("<DhcpOption as From>::from")
+def _dhcpopt_from(ex, c):
+    return Adt("DhcpOption", None, [c.args[0]])
